@@ -510,3 +510,58 @@ def r_event_marks_from_tokens(ctx, repo):
         raise AnalysisError('R-EVENT-MARKS-FROM-TOKENS: only %d event marks examined in the parser' % n)
     ctx.extra['R-EVENT-MARKS-FROM-TOKENS'] = {'event_marks_examined': n}
     return rule
+
+
+# ------------------------------------------------------------------------------------- R-COMPONENT-METHODS-DISJOINT
+# The binding's emitter replaces the Python serializer's stream methods on purpose (CEmitter precedes Serializer in the C dumpers).
+SHADOW_OK = {('cyaml', 'open'), ('cyaml', 'close'), ('cyaml', 'serialize')}
+
+
+def r_component_methods_disjoint(ctx, repo):
+    """The shipped loaders and dumpers are assembled from component classes by multiple inheritance; each component calls its own
+    methods through `self`.  If two components of one assembled class define a method of the same name with different bodies,
+    the one that comes first in the MRO silently replaces the other for *both* components (a per-document reset of the
+    serializer that is really the emitter's; a dispose() that no longer reaches the parser's)."""
+    rule = ctx.rule('R-COMPONENT-METHODS-DISJOINT',
+                    'no two component classes of a shipped loader / dumper define the same method (other than __init__, which each '
+                    'assembled class calls explicitly per component) with different bodies')
+    n = 0
+    for q, c in sorted((c.qualname, c) for c in (repo.classes.values() if isinstance(repo.classes, dict) else repo.classes)):
+        mod = q.split('.')[0]
+        if mod not in ('loader', 'dumper', 'cyaml'):
+            continue
+        bases = [b for b in c.bases if hasattr(b, 'methods')]
+        if len(bases) < 2:
+            continue
+        owners = {}
+        for b in bases:
+            seen = set()
+            for k in (b.mro or [b]):
+                if not hasattr(k, 'methods'):
+                    continue
+                for name, f in k.methods.items():
+                    if name in seen:
+                        continue
+                    seen.add(name)
+                    owners.setdefault(name, []).append((b, f))
+        n += 1
+        bad = None
+        for name, lst in sorted(owners.items()):
+            if len(lst) < 2 or name == '__init__' or (mod, name) in SHADOW_OK:
+                continue
+            bodies = {ast.dump(ast.Module(body=f.node.body, type_ignores=[])) for _, f in lst}
+            if len(bodies) > 1:
+                bad = (name, lst)
+                break
+        if bad:
+            name, lst = bad
+            first = lst[0][1]
+            rule.fail('%s|shadowed|%s' % (q, name), c.module.rel, c.node.lineno, q, 'class %s(%s)' % (c.name, ', '.join(b.name for b in bases)),
+                      '%s is defined by %s: in %s the definition of %s comes first in the MRO and is the one every component calls '
+                      'through self, so the other component runs code that is not its own' %
+                      (name, ' and '.join(f.qualname for _, f in lst), q, first.qualname))
+        else:
+            rule.ok('%s:%d' % (c.module.rel, c.node.lineno), '%s: the methods of its %d components are pairwise distinct' % (q, len(bases)))
+    if n < 8:
+        raise AnalysisError('R-COMPONENT-METHODS-DISJOINT: only %d assembled classes found (13 confirmed)' % n)
+    return rule
